@@ -144,11 +144,46 @@ TEMPLATES = {
     "subR": {"params": {"R": (1.0, 1e4)}, "good": "R", "bad": {"re": "3*R", "im": "R + I", "both": "R*(2+I)"},
              "num": lambda f, R: R + 0j * f,
              "badnum": {"re": lambda f, R: 3 * R + 0j * f, "im": lambda f, R: R + 1j + 0j * f, "both": lambda f, R: R * (2 + 1j) + 0j * f}},
+    # minor-component family: one component is < 1e-5 of |Z| at all five comparison frequencies, yet far above its OWN
+    # tolerance (atol 1e-8 + rtol 1e-5*|component|) at one or more of them; the contradicting equations get exactly that
+    # component wrong (sign flipped / omitted / doubled), so only a per-component comparison can see it
+    "Rl": {"params": {"R": (1e3, 1e4), "L": (3e-11, 1.5e-10)}, "minor": "imag", "good": "R + 2*pi*f*L*I",
+           "bad": {"neg": "R - 2*pi*f*L*I", "zero": "R", "dbl": "R + 4*pi*f*L*I"},
+           "num": lambda f, R, L: R + 2j * math.pi * f * L,
+           "badnum": {"neg": lambda f, R, L: R - 2j * math.pi * f * L, "zero": lambda f, R, L: R + 0j * f, "dbl": lambda f, R, L: R + 4j * math.pi * f * L}},
+    "Cr": {"params": {"C": (5e-10, 1e-9), "r": (1e-4, 6e-4)}, "minor": "real", "good": "r + 1/(2*pi*f*C*I)",
+           "bad": {"neg": "-r + 1/(2*pi*f*C*I)", "zero": "1/(2*pi*f*C*I)", "dbl": "2*r + 1/(2*pi*f*C*I)"},
+           "num": lambda f, C, r: r + 1 / (2j * math.pi * f * C),
+           "badnum": {"neg": lambda f, C, r: -r + 1 / (2j * math.pi * f * C), "zero": lambda f, C, r: 1 / (2j * math.pi * f * C),
+                      "dbl": lambda f, C, r: 2 * r + 1 / (2j * math.pi * f * C)}},
+    "Rk": {"params": {"R": (1e3, 1e4), "k": (2e-7, 9e-7)}, "minor": "imag", "good": "R*(1+I*k)",
+           "bad": {"neg": "R*(1-I*k)", "zero": "R", "dbl": "R*(1+2*I*k)"},
+           "num": lambda f, R, k: R * (1 + 1j * k) + 0j * f,
+           "badnum": {"neg": lambda f, R, k: R * (1 - 1j * k) + 0j * f, "zero": lambda f, R, k: R + 0j * f, "dbl": lambda f, R, k: R * (1 + 2j * k) + 0j * f}},
     # container with one sub-circuit X (default: a 20 ohm resistor)
     "cont": {"params": {"R": (1.0, 1e4)}, "good": "R + X", "bad": {"re": "2*R + X", "im": "R + X + 4*I", "both": "R*(2+I) + X"},
              "num": lambda f, R: R + 20.0 + 0j * f,
              "badnum": {"re": lambda f, R: 2 * R + 20.0 + 0j * f, "im": lambda f, R: R + 20.0 + 4j + 0j * f, "both": lambda f, R: R * (2 + 1j) + 20.0 + 0j * f}},
 }
+
+
+TEMPLATE_NAMES = ["R", "C", "L", "RC", "Q", "subR", "cont", "Rl", "Cr", "Rk"]
+TEMPLATE_P = [0.17, 0.11, 0.10, 0.11, 0.10, 0.12, 0.08, 0.07, 0.07, 0.07]
+assert set(TEMPLATE_NAMES) == set(TEMPLATES) and abs(sum(TEMPLATE_P) - 1) < 1e-12
+
+
+def minor_relative_size(tmpl, params, eq="good"):
+    """max over the comparison frequencies of |minor component| / |Z| (and of |dZ| / (1e-8 + 1e-5*|Z_eq|) for a bad equation)."""
+    np = _np()
+    f = np.array(VFREQ)
+    T = TEMPLATES[tmpl]
+    a = np.asarray(T["num"](f, **params), dtype=complex)
+    comp = a.imag if T["minor"] == "imag" else a.real
+    rel = float(np.max(np.abs(comp) / np.abs(a)))
+    if eq == "good":
+        return rel, 0.0
+    b = np.asarray(T["badnum"][eq](f, **params), dtype=complex)
+    return rel, float(np.max(np.abs(a - b) / (1e-8 + 1e-5 * np.abs(b))))
 
 
 def allclose_ratio(tmpl, params, eq):
@@ -223,7 +258,9 @@ def gen_history(rng, binfo, tier="quick", long=False):
         return [s for s, v in m.E.items() if v == tok]
 
     def new_def(tok, symbol, eq="good"):
-        tmpl = users[tok]["tmpl"] if tok in users else str(rng.choice(list(TEMPLATES), p=[0.22, 0.14, 0.12, 0.14, 0.12, 0.16, 0.10]))
+        tmpl = users[tok]["tmpl"] if tok in users else str(rng.choice(TEMPLATE_NAMES, p=TEMPLATE_P))
+        if eq == "bad":
+            eq = str(rng.choice(list(TEMPLATES[tmpl]["bad"])))
         for _ in range(50):
             params = _draw_params(rng, tmpl)
             if eq == "good" or allclose_ratio(tmpl, params, eq) >= 1e3:
@@ -277,7 +314,7 @@ def gen_history(rng, binfo, tier="quick", long=False):
                         sym, symkind = (old_sym, "same") if old_sym not in m.E else (None, None)
                     if sym is None:
                         continue
-                op = new_def(tok, sym, eq=str(rng.choice(["re", "im", "both"])))
+                op = new_def(tok, sym, eq="bad")
                 if op["eq"] == "good":
                     continue
                 op["variant"] = "reuse-inconsistent:" + op["eq"]
@@ -300,7 +337,7 @@ def gen_history(rng, binfo, tier="quick", long=False):
                 op = new_def(new_tok, held(str(rng.choice(registered_users)))[0])
                 op["variant"] = "dup-user"
             elif v == "inconsistent":  # always a class that was never accepted
-                op = new_def(new_tok, str(rng.choice(free)) if free else _rand_symbol(rng), eq=str(rng.choice(["re", "im", "both"])))
+                op = new_def(new_tok, str(rng.choice(free)) if free else _rand_symbol(rng), eq="bad")
             elif v == "invalid-symbol":
                 op = new_def(new_tok, INVALID_SYMBOLS[int(rng.integers(0, len(INVALID_SYMBOLS)))])
                 op["ok"] = False
@@ -734,6 +771,12 @@ class _History:
                 ex.obs("valid_def_mismatch_in_allclose_units", r)
             else:
                 ex.obs("inconsistent_def_inverse_margin_in_allclose_units", 1.0 / r if r > 0 else float("inf"))
+                if "minor" in TEMPLATES[op["tmpl"]]:
+                    ex.obs("minor_component_inverse_margin_in_own_allclose_units", 1.0 / r if r > 0 else float("inf"))
+            if "minor" in TEMPLATES[op["tmpl"]]:
+                rel, whole = minor_relative_size(op["tmpl"], op["params"], op["eq"])
+                ex.obs("minor_component_over_modulus", rel)
+                ex.obs("minor_contradiction_in_complex_allclose_units", whole)
         try:
             definition = ex.make_definition(cls, op)
         except Exception as e:  # ParameterDefinition validates value vs limits; the generator never violates that -> harness problem
@@ -748,6 +791,9 @@ class _History:
         expected = self.m.register(op["tok"], op["symbol"], op["ok"], op["private"], op["params"])
         out, val = self.call(ex.register_element, definition, **kwargs)
         variant = op["variant"].split(":")[0]
+        if "minor" in TEMPLATES[op["tmpl"]] and op["eq"] != "good":
+            ex.count("pattern:minor-component")
+            ex.count("pattern:minor-component:%s:%s:%s" % (op["tmpl"], op["eq"], "refused" if out == "raised" else "accepted"))
         if variant == "reuse-inconsistent":
             ex.count("pattern:reuse-inconsistent")
             ex.count("pattern:reuse-inconsistent:after=%s:symbol=%s:eq=%s" % (op.get("after"), op.get("symkind"), op["eq"]))
@@ -762,7 +808,7 @@ class _History:
             if not op["ok"] and variant == "invalid-symbol":
                 key = "C15/invalid-symbol-accepted"
             elif not op["ok"]:
-                key = "C15/inconsistent-accepted:" + op["eq"]
+                key = "C15/inconsistent-accepted:" + ("minor-" if "minor" in TEMPLATES[op["tmpl"]] else "") + op["eq"]
             else:
                 key = "C15/duplicate-symbol-accepted:" + dup_kind
             self.bad(key, "register_element accepted a definition that must be refused (symbol %r, equation %r, variant %s)" % (op["symbol"], definition.equation, op["variant"]), step)
